@@ -8,8 +8,8 @@ import (
 	"github.com/protobom/protobom/pkg/sbom"
 	"google.golang.org/protobuf/encoding/prototext"
 	"google.golang.org/protobuf/proto"
-	"verifharness/internal/core"
 	"google.golang.org/protobuf/reflect/protoreflect"
+	"verifharness/internal/core"
 	"verifharness/internal/gen"
 )
 
